@@ -21,6 +21,8 @@ import (
 
 	envoy_config_core_v3 "github.com/envoyproxy/go-control-plane/envoy/config/core/v3"
 	envoy_config_endpoint_v3 "github.com/envoyproxy/go-control-plane/envoy/config/endpoint/v3"
+	"google.golang.org/protobuf/types/known/structpb"
+	"google.golang.org/protobuf/types/known/wrapperspb"
 	"mosn.io/api"
 	"mosn.io/mosn/istio/istio1106/xds/conv"
 	v2 "mosn.io/mosn/pkg/config/v2"
@@ -54,6 +56,58 @@ type vhost struct {
 	Dom    string  `json:"dom"`
 	Routes []route `json:"routes"`
 }
+// hostArg is a host argument of an operation: a map address id -> attribute class (TLC writes an object, or []
+// for the empty map), or a plain list of address ids (rmhosts).
+type hostArg struct {
+	ids  []string          // sorted address ids
+	attr map[string]string // attribute class per id ("" for plain lists)
+}
+
+func (a *hostArg) UnmarshalJSON(b []byte) error {
+	a.attr = map[string]string{}
+	a.ids = []string{}
+	if len(b) > 0 && b[0] == '[' {
+		if err := json.Unmarshal(b, &a.ids); err != nil {
+			return err
+		}
+	} else if err := json.Unmarshal(b, &a.attr); err != nil {
+		return err
+	} else {
+		for k := range a.attr {
+			a.ids = append(a.ids, k)
+		}
+	}
+	sort.Strings(a.ids)
+	return nil
+}
+
+func uni(ids []string, attr string) hostArg {
+	a := hostArg{ids: append([]string{}, ids...), attr: map[string]string{}}
+	sort.Strings(a.ids)
+	for _, h := range a.ids {
+		a.attr[h] = attr
+	}
+	return a
+}
+
+type hostObs struct {
+	H string `json:"h"`
+	A string `json:"a"`
+}
+
+// pairs is the trace representation of a host map.
+func (a hostArg) pairs() []hostObs {
+	out := []hostObs{}
+	for _, h := range a.ids {
+		out = append(out, hostObs{h, a.attr[h]})
+	}
+	return out
+}
+
+// the attribute classes: everything an update can change about a host that is also persisted and observable
+var attrWeight = map[string]uint32{"a1": 1, "a2": 2}
+var attrVersion = map[string]string{"a1": "v1", "a2": "v2"}
+
 type op struct {
 	Op   string     `json:"op"`
 	R    string     `json:"r,omitempty"`
@@ -63,9 +117,9 @@ type op struct {
 	Rt   *route     `json:"rt,omitempty"`
 	C    string     `json:"c,omitempty"`
 	Lb   string     `json:"lb,omitempty"`
-	Hs   []string   `json:"hs,omitempty"`
+	Hs   hostArg    `json:"hs"`
 	Cs   []string   `json:"cs,omitempty"`
-	Locs [][]string `json:"locs,omitempty"`
+	Locs []hostArg  `json:"locs,omitempty"`
 	N    string     `json:"n,omitempty"`
 	V    string     `json:"v,omitempty"`
 }
@@ -92,26 +146,26 @@ func routerCfgJSON(name string, vhs []vhost) []byte {
 	return b
 }
 
-func hostsJSON(hs []string) []interface{} {
+func hostsJSON(hs hostArg) []interface{} {
 	out := []interface{}{}
-	s := append([]string{}, hs...)
-	sort.Strings(s)
-	for _, h := range s {
-		out = append(out, map[string]interface{}{"address": hostAddr[h], "hostname": h})
+	for _, h := range hs.ids {
+		a := hs.attr[h]
+		out = append(out, map[string]interface{}{"address": hostAddr[h], "hostname": h, "weight": attrWeight[a],
+			"metadata": map[string]interface{}{"filter_metadata": map[string]interface{}{"mosn.lb": map[string]interface{}{"version": attrVersion[a]}}}})
 	}
 	return out
 }
 
-func clusterCfgJSON(name, lb string, hs []string) []byte {
+func clusterCfgJSON(name, lb string, hs *hostArg) []byte {
 	m := map[string]interface{}{"name": name, "type": "SIMPLE", "lb_type": string(lbOf[lb])}
 	if hs != nil {
-		m["hosts"] = hostsJSON(hs)
+		m["hosts"] = hostsJSON(*hs)
 	}
 	b, _ := json.Marshal(m)
 	return b
 }
 
-func hostCfgs(hs []string) []v2.Host {
+func hostCfgs(hs hostArg) []v2.Host {
 	b, _ := json.Marshal(hostsJSON(hs))
 	var out []v2.Host
 	vh.Must(json.Unmarshal(b, &out), "host config")
@@ -165,10 +219,21 @@ func viewRouters(rs types.Routers) []string {
 }
 
 type clusterView struct {
-	St    string   `json:"st"`
-	Lb    string   `json:"lb"`
-	Hosts []string `json:"hosts"`
-	Sup   []string `json:"sup"`
+	St    string    `json:"st"`
+	Lb    string    `json:"lb"`
+	Hosts []hostObs `json:"hosts"`
+	Sup   []string  `json:"sup"`
+}
+
+// hostAttr names the attribute class a host object (live, or built from the dump) carries.
+func hostAttr(h types.Host) string {
+	w, v := h.Weight(), h.Metadata()["version"]
+	for a := range attrWeight {
+		if attrWeight[a] == w && attrVersion[a] == v {
+			return a
+		}
+	}
+	return fmt.Sprintf("?weight=%d,version=%s", w, v)
 }
 
 func hostID(h types.Host) string {
@@ -180,17 +245,17 @@ func hostID(h types.Host) string {
 
 func viewSnapshot(snap types.ClusterSnapshot) clusterView {
 	if snap == nil {
-		return clusterView{St: "absent", Hosts: []string{}, Sup: []string{}}
+		return clusterView{St: "absent", Hosts: []hostObs{}, Sup: []string{}}
 	}
-	v := clusterView{St: "ok", Hosts: []string{}, Sup: []string{}}
+	v := clusterView{St: "ok", Hosts: []hostObs{}, Sup: []string{}}
 	lt := snap.ClusterInfo().LbType()
 	if n, ok := lbName[lt]; ok {
 		v.Lb = n
 	} else {
 		v.Lb = "?" + string(lt)
 	}
-	snap.HostSet().Range(func(h types.Host) bool { v.Hosts = append(v.Hosts, hostID(h)); return true })
-	sort.Strings(v.Hosts)
+	snap.HostSet().Range(func(h types.Host) bool { v.Hosts = append(v.Hosts, hostObs{hostID(h), hostAttr(h)}); return true })
+	sort.Slice(v.Hosts, func(i, j int) bool { return v.Hosts[i].H < v.Hosts[j].H })
 	seen := map[string]bool{}
 	for i := 0; i < 2*len(v.Hosts)+2; i++ {
 		h := snap.LoadBalancer().ChooseHost(&lbCtx{ctx: context.Background()})
@@ -298,7 +363,7 @@ func (p *replay) apply(o op) bool {
 		vh.Must(json.Unmarshal(clusterCfgJSON(o.C, o.Lb, nil), &c), "cluster config")
 		return ad.TriggerClusterAddOrUpdate(c) != nil
 	case "clusterhosts":
-		b := clusterCfgJSON(o.C, o.Lb, o.Hs)
+		b := clusterCfgJSON(o.C, o.Lb, &o.Hs)
 		if p.viaAPI {
 			return apiUpdateConfig("cluster", b)
 		}
@@ -311,7 +376,7 @@ func (p *replay) apply(o op) bool {
 		return ad.TriggerHostAppend(o.C, hostCfgs(o.Hs)) != nil
 	case "rmhosts":
 		addrs := []string{}
-		for _, h := range o.Hs {
+		for _, h := range o.Hs.ids {
 			addrs = append(addrs, hostAddr[h])
 		}
 		return ad.TriggerHostDel(o.C, addrs) != nil
@@ -344,17 +409,19 @@ func (p *replay) applySafe(o op) (failed bool, panicked string) {
 	return p.apply(o), ""
 }
 
-func loadAssignment(c string, locs [][]string) *envoy_config_endpoint_v3.ClusterLoadAssignment {
+func loadAssignment(c string, locs []hostArg) *envoy_config_endpoint_v3.ClusterLoadAssignment {
 	la := &envoy_config_endpoint_v3.ClusterLoadAssignment{ClusterName: c}
 	for i, loc := range locs {
 		le := &envoy_config_endpoint_v3.LocalityLbEndpoints{
 			Locality: &envoy_config_core_v3.Locality{Region: fmt.Sprintf("region-%d", i), Zone: fmt.Sprintf("zone-%d", i)},
 		}
-		s := append([]string{}, loc...)
-		sort.Strings(s)
-		for _, h := range s {
+		for _, h := range loc.ids {
 			hp := strings.Split(hostAddr[h], ":")
+			a := loc.attr[h]
 			le.LbEndpoints = append(le.LbEndpoints, &envoy_config_endpoint_v3.LbEndpoint{
+				LoadBalancingWeight: wrapperspb.UInt32(attrWeight[a]),
+				Metadata: &envoy_config_core_v3.Metadata{FilterMetadata: map[string]*structpb.Struct{
+					"envoy.lb": {Fields: map[string]*structpb.Value{"version": structpb.NewStringValue(attrVersion[a])}}}},
 				HostIdentifier: &envoy_config_endpoint_v3.LbEndpoint_Endpoint{Endpoint: &envoy_config_endpoint_v3.Endpoint{
 					Address: &envoy_config_core_v3.Address{Address: &envoy_config_core_v3.Address_SocketAddress{
 						SocketAddress: &envoy_config_core_v3.SocketAddress{Address: hp[0],
@@ -491,15 +558,17 @@ func opEvent(o op, failed bool) vh.Ev {
 	case "primary":
 		ev["c"], ev["lb"] = o.C, o.Lb
 	case "clusterhosts":
-		ev["c"], ev["lb"], ev["hs"] = o.C, o.Lb, nonNil(o.Hs)
-	case "updhosts", "append", "rmhosts":
-		ev["c"], ev["hs"] = o.C, nonNil(o.Hs)
+		ev["c"], ev["lb"], ev["hs"] = o.C, o.Lb, o.Hs.pairs()
+	case "updhosts", "append":
+		ev["c"], ev["hs"] = o.C, o.Hs.pairs()
+	case "rmhosts":
+		ev["c"], ev["hs"] = o.C, nonNil(o.Hs.ids)
 	case "rmcluster":
 		ev["cs"] = nonNil(o.Cs)
 	case "endpoints":
-		locs := [][]string{}
+		locs := [][]hostObs{}
 		for _, l := range o.Locs {
-			locs = append(locs, nonNil(l))
+			locs = append(locs, l.pairs())
 		}
 		ev["c"], ev["locs"] = o.C, locs
 	case "listener":
